@@ -99,7 +99,7 @@ def run(run: Run) -> int:
     corner = sibling_duplicate_case()
     B.run_impl(corner)
     from harness import c14
-    extra_corners = [c for c in c14.nested_varying_cases() if c.meta.get("same_name_two_domains_in_sibling_branches") or c.meta.get("function_on_unknown_rank")]
+    extra_corners = c14.nested_varying_cases()     # functions whose definitions differ between calls: build must refuse, never return an invalid model
     corner.coq = None        # the model's validator rejects this output by design (value name defined twice)
     cases.append(corner)
     for c in extra_corners:
